@@ -23,6 +23,8 @@ NoneS(x) == [k |-> "none"]
 SExpr(e) == [k |-> "expr", e |-> e]
 Let(n, e) == [k |-> "let", n |-> n, e |-> e]
 Const(n, e) == [k |-> "const", n |-> n, e |-> e]
+LetT(n, ty, e) == [k |-> "lett", n |-> n, ty |-> ty, e |-> e]         \* let n: ty = e   (ty as spelled in the source)
+LetU(n, ty) == [k |-> "lett", n |-> n, ty |-> ty, e |-> [k |-> "none"]] \* let n: ty;      (declared, not assigned)
 Asg(n, e) == [k |-> "asg", n |-> n, e |-> e]
 AsgSub(n, i, e) == [k |-> "asgsub", n |-> n, i |-> i, e |-> e]       \* n[i] = e on a local list
 Arr(args) == [k |-> "arr", args |-> args]
